@@ -5,7 +5,7 @@ import ObiVerif.Model.SeqOps
 
 Transcription of
 * `pkg/obiapat/pcr.go`         : `_Pcr` (both orientation blocks), `_PCRSlice` / `PCRSlice`, `MakeOptions` / `Option*`
-* `pkg/obitools/obipcr/pcr.go` : the fragmenting parameters of `CLIPCR`
+* `pkg/obitools/obipcr/pcr.go` : the options and the fragmenting parameters of `CLIPCR`
 * `pkg/obiiter/fragment.go`    : the cutting loop of `IFragments`
 
 over the match lists of the C10 matcher model (`Apat.findAllIndex`, `Apat.compile`, `Apat.reverseComplement`) and C07's
@@ -208,5 +208,10 @@ def fragments (minsize length overlap : Int) (len : Nat) : Option (Option (List 
 /-- the arguments `CLIPCR` gives to `IFragments` (`lf`, `lr`: lengths of the primer *strings*) -/
 def cliFragParams (maxLength : Int) (lf lr : Nat) (delta : Int) : Int × Int × Int :=
   (maxLength * 1000, maxLength * 100, maxLength + lf + lr + (if delta ≥ 0 then 2 * delta else 0))
+
+/-- the options `CLIPCR` hands to `PCRSliceWorker`: `--min-length` only when positive, `--delta` only when ≥ 0
+(`CLIWithExtension`), `--max-length` always, `--circular` only when set (the defaults of `MakeOptions` otherwise) -/
+def cliOpts (minLength maxLength delta : Int) (onlyFull circular : Bool) : Opts :=
+  ⟨if minLength > 0 then minLength else 0, maxLength, circular, if delta ≥ 0 then delta else -1, onlyFull⟩
 
 end ObiVerif.Pcr
